@@ -60,6 +60,7 @@ type rcCfg struct {
 	AfterConnect    func(r *rcRun) // called by the main task right after Connect returned successfully
 	PingDelay       time.Duration  // the broker answers PINGREQ after this delay
 	KeepAliveOpt    uint16         // mqtt.WithKeepAlive(seconds) connect option (the reconnecting client derives its ping interval from it)
+	Manual          bool           // no ReconnectClient: the application drives a bare RetryClient itself (dial, SetClient, Connect, Resubscribe, Retry, wait for Done, redial)
 }
 
 type rcState struct {
@@ -218,12 +219,19 @@ func rcExecuteInto(cfg *rcCfg, out **rcRun) *rcRun {
 	if cfg.PingInterval > 0 {
 		opts = append(opts, mqtt.WithPingInterval(cfg.PingInterval))
 	}
-	rc, err := mqtt.NewReconnectClient(dialer, opts...)
-	if err != nil {
-		vrt.Failf("harness", "NewReconnectClient: %v", err)
-		return r
+	if cfg.Manual {
+		// The documented stand-alone use of RetryClient (Retryer interface): the application owns
+		// the redial loop.  Same calls in the same order as the library's own reconnect loop.
+		r.rc = r.retry
+	} else {
+		rc, err := mqtt.NewReconnectClient(dialer, opts...)
+		if err != nil {
+			vrt.Failf("harness", "NewReconnectClient: %v", err)
+			return r
+		}
+		r.rc = rc
 	}
-	r.rc = rc
+	rc := r.rc
 	h := mqtt.HandlerFunc(func(m *mqtt.Message) {
 		r.handled = append(r.handled, string(m.Payload))
 		r.ev("handled " + string(m.Payload))
@@ -264,7 +272,11 @@ func rcExecuteInto(cfg *rcCfg, out **rcRun) *rcRun {
 	if cfg.KeepAliveOpt > 0 {
 		copts = append(copts, mqtt.WithKeepAlive(cfg.KeepAliveOpt))
 	}
-	_, r.connErr = rc.Connect(vctx.Background(), "cid", copts...)
+	if cfg.Manual {
+		r.connErr = r.manualLoop(dialer, copts, base, max)
+	} else {
+		_, r.connErr = rc.Connect(vctx.Background(), "cid", copts...)
+	}
 	r.connectOK = r.connErr == nil
 	if cfg.HandlerPhase == 'C' {
 		rc.Handle(h)
@@ -277,6 +289,45 @@ func rcExecuteInto(cfg *rcCfg, out **rcRun) *rcRun {
 	}
 	vrt.Quiesce()
 	return r
+}
+
+// manualLoop is an application-owned redial loop around a bare RetryClient.  It returns when the
+// first connection is established (like ReconnectClient.Connect); the loop goes on in its own task.
+func (r *rcRun) manualLoop(dialer mqtt.Dialer, copts []mqtt.ConnectOption, base, max time.Duration) error {
+	first := make(chan error, 1)
+	bg := vctx.Background()
+	vrt.GoDaemon("app-redial", func() {
+		initialized := false
+		wait := base
+		for {
+			cli, err := dialer.DialContext(bg)
+			if err == nil {
+				r.retry.SetClient(bg, cli)
+				var sp bool
+				sp, err = r.retry.Connect(bg, "cid", copts...)
+				if err == nil {
+					wait = base
+					if !initialized {
+						vrt.SendTo(first).V(nil)
+					}
+					if initialized && (!sp || r.cfg.AlwaysResub) {
+						r.retry.Resubscribe(bg)
+					}
+					r.retry.Retry(bg)
+					initialized = true
+					vrt.Recv(cli.Done())
+				} else {
+					cli.Close()
+				}
+			}
+			vrt.Sleep(int64(wait))
+			wait *= 2
+			if wait > max {
+				wait = max
+			}
+		}
+	})
+	return vrt.Recv(first)
 }
 
 // ---- trace helpers ----
